@@ -407,6 +407,7 @@ pub struct NestCase {
     pub target: String,
 }
 
+pub const CHILD_STACK_KIB: u32 = 1024;
 pub const NEST_KINDS: &[&str] = &["paren", "abs", "subscript", "if-then", "if-else-if", "call", "paren-assign", "neg-paren", "for-bound", "dim", "def-chain", "def-chain-args"];
 
 pub fn nest_text(kind: &str, d: usize) -> Vec<String> {
@@ -499,8 +500,14 @@ fn check_nest(c: &NestCase, rec: &mut CaseRec) -> Verdict {
         Ok(e) => e,
         Err(e) => return Verdict::fail("harness:no-exe", e.to_string()),
     };
-    let out = std::process::Command::new(exe)
-        .args(["--child", "nest", &c.kind, &c.depth.to_string(), &c.target])
+    // The child runs on a 1 MiB main-thread stack (the default stack of the WASM build; in
+    // the optimised harness build this also leaves the ~5-8x headroom that debug builds
+    // need on the CLI's 8 MiB main thread).
+    let out = std::process::Command::new("sh")
+        .arg("-c")
+        .arg(format!("ulimit -s {}; exec \"$0\" --child nest \"$1\" \"$2\" \"$3\"", CHILD_STACK_KIB))
+        .arg(exe)
+        .args([&c.kind, &c.depth.to_string(), &c.target])
         .env("RUST_BACKTRACE", "0")
         .output();
     let out = match out {
@@ -582,9 +589,9 @@ pub fn property() -> Property {
     ];
     Property {
         id: "C01",
-        rule: "Sessions of host intents (submit line / continue n turns / reply / break / seed) mapped onto protocol-respecting host calls. structured-sessions: a grammar-generated program (INPUT/STOP allowed) typed in shuffled order, then a script of RUN / CONT / LIST / NEW / TRACE / NOTRACE / STATS / INTERNALS, immediate statements, line edits and deletions, breaks, good and bad replies, boundary seeds. hostile-sessions: boundary lines (line 18446744073709551615, subscripts 2^32-1 / 2^63-1 / 1e19, 19-40 subscripts, huge GOTO targets, extreme FOR bounds, keyword soup, statements truncated at every token, recursive DEF), spliced/truncated variants, atom soup, long lines, moderate nesting. raw-sessions: arbitrary Unicode lines and replies incl. NUL, CR, LF, form feed. boundary-lines / seeds: every boundary line in three fixed scripts, every boundary seed (exhaustive). deep-nesting: 10 nesting constructs x depths up to 30000 (quick) / 300000 (thorough) x {interpreter, analyzer}, each in a child process with the default 8 MiB main-thread stack, judged by exit status. Oracle: no call panics or kills the process; after every Err the state is Idle and the error renders as nothing or exactly a source line plus a blanks-then-carets line within (one past) that line, and for numbered lines the source line equals the LIST text; break yields Idle + a BREAK record; a reply yields Running; finally PRINT 7 prints exactly 7. Non-trivial: an error followed by a successful call, or break+CONT, a reply, NEW, or an edit after RUN; distinct by call-kind/outcome sequence.",
+        rule: "Sessions of host intents (submit line / continue n turns / reply / break / seed) mapped onto protocol-respecting host calls. structured-sessions: a grammar-generated program (INPUT/STOP allowed) typed in shuffled order, then a script of RUN / CONT / LIST / NEW / TRACE / NOTRACE / STATS / INTERNALS, immediate statements, line edits and deletions, breaks, good and bad replies, boundary seeds. hostile-sessions: boundary lines (line 18446744073709551615, subscripts 2^32-1 / 2^63-1 / 1e19, 19-40 subscripts, huge GOTO targets, extreme FOR bounds, keyword soup, statements truncated at every token, recursive DEF), spliced/truncated variants, atom soup, long lines, moderate nesting. raw-sessions: arbitrary Unicode lines and replies incl. NUL, CR, LF, form feed. boundary-lines / seeds: every boundary line in three fixed scripts, every boundary seed (exhaustive). deep-nesting: 12 nesting constructs (incl. chains of 31 DEFs each nesting a call of the previous one) x depths up to 30000 (quick) / 300000 (thorough) x {interpreter, analyzer}, each in a child process on a 1 MiB main-thread stack (ulimit -s 1024), judged by exit status. Oracle: no call panics or kills the process; after every Err the state is Idle and the error renders as nothing or exactly a source line plus a blanks-then-carets line within (one past) that line, and for numbered lines the source line equals the LIST text; break yields Idle + a BREAK record; a reply yields Running; finally PRINT 7 prints exactly 7. Non-trivial: an error followed by a successful call, or break+CONT, a reply, NEW, or an edit after RUN; distinct by call-kind/outcome sequence.",
         assumptions: vec![
-            "native-stack exhaustion is decided for the harness build profile (opt-level 2, overflow checks on) on an 8 MiB main thread",
+            "native-stack exhaustion is decided for the harness build profile (opt-level 2, overflow checks on) on a 1 MiB main-thread stack: the WASM build's default stack, and in this build roughly equivalent to a debug build on the CLI's 8 MiB main thread",
             "in-process workers run on 256 MiB stacks so that only the child-process battery judges stack exhaustion",
         ],
         fuzz: Some(FuzzSpec { target: "c01_session", runs: 150_000, max_len: 2048, verdict: crate::fuzz::c01_verdict }),
